@@ -296,8 +296,8 @@ class _ShaHasher(PasswordHasher):
 
     def hash(self, secret: StrOrBytes, *, salt: StrOrBytes | None = None) -> str:
         salt = as_str(salt) if salt is not None else _gen_salt(16)
-        if len(salt) > 16:
-            raise ValueError("salt too large (sha-crypt allows at most 16 characters)")
+        if not 1 <= len(salt) <= 16 or "$" in salt:
+            raise ValueError("salt must be 1 to 16 characters, without '$'")
 
         sha = _sha_crypt(
             secret=as_bytes(secret),
